@@ -15,9 +15,16 @@ IDENT_FIRST = string.ascii_letters
 IDENT_REST = string.ascii_letters + string.digits + "_"
 
 
+LONG_IDENTS = ["L" + "o" * 130 + "ng", "A" + "b1" * 80, "X" * 260]
+
+
 def ident_names(max_size=8):
-    return st.builds(lambda a, b: a + b, st.sampled_from(IDENT_FIRST),
-                     st.text(alphabet=IDENT_REST, max_size=max_size - 1))
+    short = st.builds(lambda a, b: a + b, st.sampled_from(IDENT_FIRST),
+                      st.text(alphabet=IDENT_REST, max_size=max_size - 1))
+    if max_size < 8:
+        return short
+    # now and then a name far beyond any line width or fixed-size buffer
+    return st.one_of(*([short] * 24), st.sampled_from(LONG_IDENTS))
 
 
 def dict_names(pred):
@@ -405,7 +412,8 @@ def _blocks(draw, k, allow_groups=True):
 
 
 @st.composite
-def model_specs(draw, profile: Profile, min_feats=1, max_feats=12, with_ctcs=True, allow_wide=True, ctc_mode=None):
+def model_specs(draw, profile: Profile, min_feats=1, max_feats=12, with_ctcs=True, allow_wide=True, ctc_mode=None,
+                many_ctcs=False):
     n = draw(st.integers(min_feats, max_feats))
     names = draw(distinct(profile.names, n, profile.unique_key))
     if n >= 2 and profile.variants and draw(st.integers(0, 2)) == 0:
@@ -477,8 +485,9 @@ def model_specs(draw, profile: Profile, min_feats=1, max_feats=12, with_ctcs=Tru
         _add_wide_group(draw, profile, feats, names)
     ctcs = []
     if with_ctcs and profile.ctc_max and profile.simple_ops and n >= 2 and (
-            ctc_mode == "structured" or draw(st.integers(0, 4)) == 0):
-        for j, e in enumerate(_structured_ctcs(draw, feats[0], profile.simple_ops, profile.ctc_max)):
+            ctc_mode == "structured" or many_ctcs or draw(st.integers(0, 4)) == 0):
+        for j, e in enumerate(_structured_ctcs(draw, feats[0], profile.simple_ops,
+                                               draw(st.integers(40, 120)) if many_ctcs else profile.ctc_max)):
             ctcs.append({"name": profile.ctc_names(draw, j) if profile.ctc_names else f"C{j}", "ast": e})
     elif with_ctcs and profile.ctc_max:
         m = draw(st.integers(0, profile.ctc_max))
@@ -589,7 +598,7 @@ def _structured_ctcs(draw, root, ops, ctc_max):
         return draw(st.sampled_from(all_names)), draw(st.sampled_from(all_names))
 
     out = []
-    for _ in range(draw(st.integers(1, max(1, ctc_max + 2)))):
+    for _ in range(draw(st.integers(1, max(1, ctc_max + 2))) if ctc_max < 40 else ctc_max):
         a, b = pair()
         out.append((homogeneous or draw(st.sampled_from(forms)))(a, b))
     return out
